@@ -362,6 +362,43 @@ func (s *Scn) do(op string) Outcome {
 		s.tickIf()
 		_, err := s.DB.Snapshot(ctx)
 		return Outcome{Err: err}
+	case "QSNAP":
+		// A snapshot REQUESTED while a sync is in flight: the sync is paused (hook) at the point where it has
+		// taken the executor and is about to stage its level-0 file; DB.Snapshot is started and queues behind
+		// it; time passes; the sync is released, creates its file, and the snapshot then runs and covers it.
+		// One fixed interleaving of two daemon operations, joined before the operation returns.
+		if !s.LSOpen || s.Remote != nil {
+			return ill
+		}
+		s.tickIf()
+		reached, release := s.DB.VerifPauseNextLTXStaging()
+		syncDone := make(chan error, 1)
+		go func() { syncDone <- s.DB.Sync(ctx) }()
+		select {
+		case <-reached:
+		case err := <-syncDone:
+			// nothing to sync: no level-0 file was staged; plain snapshot
+			s.DB.VerifResetLTXStaging()
+			if err != nil {
+				return Outcome{Err: err}
+			}
+			_, err = s.DB.Snapshot(ctx)
+			s.recordLedger()
+			return Outcome{Err: err}
+		}
+		snapDone := make(chan error, 1)
+		go func() { _, err := s.DB.Snapshot(ctx); snapDone <- err }()
+		for i := 0; i < 2000 && s.DB.SyncDiagnostic().ExecutorWaiterCount == 0; i++ {
+			time.Sleep(time.Millisecond)
+		}
+		time.Sleep(4 * time.Millisecond) // the request is now strictly older than the file the sync is about to create
+		release()
+		err := <-syncDone
+		if e := <-snapDone; err == nil {
+			err = e
+		}
+		s.recordLedger()
+		return Outcome{Err: err}
 	case "CMP":
 		if !s.LSOpen {
 			return ill
